@@ -216,8 +216,9 @@ def rule_types(ctx):
               'key = %s' % key)
     cnt = [c for c in ins if c[1][0] == 'self.n_tx_types']
     occ = [c for c in ins if c[1][0] == 'self.tx_first_occs']
-    ck = '!contains_key(self.n_tx_types, %s)' % key
-    ctx.check('types', 'count-starts-at-1-on-first', len(cnt) == 1 and cnt[0][1][1:] == [key, '1'] and ck in cnt[0][2], b,
+    # accepted spellings of "this type has not been counted yet"
+    cks = ['!contains_key(self.n_tx_types, %s)' % key, 'get_mut(self.n_tx_types, %s) is None' % key, 'get(self.n_tx_types, %s) is None' % key]
+    ctx.check('types', 'count-starts-at-1-on-first', len(cnt) == 1 and cnt[0][1][1:] == [key, '1'] and any(ck in cnt[0][2] for ck in cks), b,
               'n_tx_types.insert(%s) under %s' % (cnt[0][1][1:] if cnt else '?', cnt[0][2] if cnt else '?'))
     # the first-occurrence insert lies in the same not-contains region (dominated by the count insert's block chain)
     ok_occ = len(occ) == 1 and occ[0][1][1:] == [key, '(a3, a4, a5)']
@@ -230,8 +231,8 @@ def rule_types(ctx):
     # otherwise: counter += 1
     st = [(canon(b.place_expr(p)), canon(b.rvalue_expr(rv)), util.guards_at(b, bb)) for bb, idx, p, rv, s in b.stores() if rv is not None]
     inc = [x for x in st if x[1] == '(%s + 1)' % x[0]]
-    tgt = 'or_insert(entry(self.n_tx_types, %s), 1)' % key
-    ctx.check('types', 'count-incremented-otherwise', len(inc) == 1 and inc[0][0] == tgt, b,
+    tgts = ['or_insert(entry(self.n_tx_types, %s), 1)' % key, 'or_default(entry(self.n_tx_types, %s))' % key, 'get_mut(self.n_tx_types, %s)?' % key]
+    ctx.check('types', 'count-incremented-otherwise', len(inc) == 1 and inc[0][0] in tgts, b,
               'on the contains edge: %s' % (inc[0][0] + ' += 1' if inc else st))
     ctx.check('types', 'no-other-store', len(st) == 1, b, '%d store(s) in process_tx_pattern' % len(st))
 
